@@ -35,6 +35,11 @@ func init() {
 			for s := -62; s <= 62; s++ {
 				is = append(is, mk("common", "VerifC20Shift", cs("s", s)))
 			}
+			// beyond the property's |shift| < 63: floor semantics still hold on the current tree (Go's >> sign-fills for any
+			// count), checked so that a "guard" for large counts cannot change it silently
+			for _, s := range []int{-127, -100, -65, -64, -63, 63, 64} {
+				is = append(is, mk("common", "VerifC20Shift", cs("s", s)))
+			}
 			vl := mk("common/spatial", "VerifC20VecLinear", nil)
 			vl.Solver = CVC5
 			vl.Timeout = 300000
